@@ -2,26 +2,35 @@ import LsModel.DriverA
 import LsModel.PropsA
 import LsModel.DriverStrat
 import LsModel.DriverDup
+import LsModel.DriverTxn
 /- lsdriver: one operation per input line, exactly one canonical output line per operation. -/
 open Ls.Drv
 
+/-- stateless operations -/
 def handlers : List (String → List String → Option String) := [opHeader, opMerge, opC02, opStrat, opDup]
 
-def step (line : String) : String :=
-  match (line.trimAscii.toString.split (· == ' ')).toList.map (·.toString) |>.filter (· ≠ "") with
-  | [] => "bad-op"
-  | op :: args =>
-    match handlers.findSome? (fun h => h op args) with
-    | some out => out
-    | none => "bad-op"
+/-- operations that read or update the driver state -/
+def statefulHandlers : List (String → List String → DrvState → Option (DrvState × String)) := [opTxn]
 
-partial def loop (h : IO.FS.Stream) (out : IO.FS.Stream) : IO Unit := do
+def step (st : DrvState) (line : String) : DrvState × String :=
+  match (line.trimAscii.toString.split (· == ' ')).toList.map (·.toString) |>.filter (· ≠ "") with
+  | [] => (st, "bad-op")
+  | op :: args =>
+    match statefulHandlers.findSome? (fun h => h op args st) with
+    | some r => r
+    | none =>
+      match handlers.findSome? (fun h => h op args) with
+      | some out => (st, out)
+      | none => (st, "bad-op")
+
+partial def loop (h : IO.FS.Stream) (out : IO.FS.Stream) (st : DrvState) : IO Unit := do
   let line ← h.getLine
   if line.isEmpty then return ()
-  out.putStrLn (step line)
-  loop h out
+  let (st', o) := step st line
+  out.putStrLn o
+  loop h out st'
 
 def main : IO Unit := do
   let out ← IO.getStdout
-  loop (← IO.getStdin) out
+  loop (← IO.getStdin) out {}
   out.flush
